@@ -15,7 +15,7 @@ from gen.enums_tables import lean_name
 LEXER_RS = 'compiler/src/lex/lexer.rs'
 HERE = os.path.dirname(os.path.abspath(__file__))
 VERIF = os.path.dirname(os.path.dirname(HERE))
-HBIN = os.path.join(VERIF, 'harness', 'target', 'debug', 'gharness')
+HBIN = os.path.join(os.environ.get('VERIF_HARNESS', os.path.join(VERIF, 'harness')), 'target', 'debug', 'gharness')
 LEAN = os.path.join(VERIF, 'lean')
 PREDICATES = ['alphanumeric', 'numeric', 'alphabetic', 'whitespace', 'ascii_whitespace']
 # documented definition of char::is_ascii_whitespace (the model hard-codes it): SP, HT, LF, FF, CR
@@ -46,7 +46,7 @@ def rust_str(lit):
     return ''.join(out)
 
 
-def operator_list(src):
+def operator_list_strict(src):
     """[(spelling, TokenType variant)] of the create_operator_tree(vec![...]) call inside `Lexer::new`"""
     m = re.search(r'impl<\'a> Lexer<\'a>', src)
     if not m:
@@ -72,6 +72,35 @@ def operator_list(src):
         raise ValueError('operator table does not end with `]);`')
     if not ops:
         raise ValueError('empty operator table')
+    return ops
+
+
+def operator_list(src):
+    """the operator table: the `create_operator_tree(vec![...])` call of `Lexer::new` if it is written that way, otherwise
+    (the list moved into a helper, a const, a different container) every `("spelling", TokenType::Variant)` tuple literal of
+    the non-test code of lexer.rs, in source order — the trie does not depend on the order, spellings must be distinct"""
+    try:
+        ops = operator_list_strict(src)
+        from gen import tables_dump
+        d = tables_dump.dump()
+        if d is not None and sorted(ops) != sorted(d['ops']):
+            raise RuntimeError('the operator table read from the source text differs from the table of the compiled code')
+        return ops
+    except ValueError:
+        pass
+    code = strip_comments(src.split('#[cfg(test)]')[0])
+    tup = re.compile(r'\(\s*"((?:[^"\\]|\\.)*)"\s*,\s*TokenType::([A-Za-z_][A-Za-z0-9_]*)\s*,?\s*\)')
+    ops = [(rust_str(m.group(1)), m.group(2)) for m in tup.finditer(code)]
+    ok = len(ops) >= 40 and len({a for a, _ in ops}) == len(ops)
+    from gen import tables_dump
+    d = tables_dump.dump()
+    if d is not None:
+        if ok and sorted(ops) != sorted(d['ops']):
+            ok = False
+        if not ok:
+            return list(d['ops'])          # the table of the compiled code (TABLES dump through the garnish_verif hook)
+    if not ok:
+        raise ValueError(f'operator table not found: {len(ops)} ("spelling", TokenType::X) tuples in lexer.rs and no TABLES dump available')
     return ops
 
 
